@@ -703,7 +703,13 @@ func c13Item(rs *prng, w1, w2 *c13world, kind int64, mut int) (key, val []byte, 
 		switch rs.intn(3) {
 		case 0:
 			if len(path) > 0 {
-				path[rs.intn(len(path))] ^= byte(1 + rs.intn(15))
+				// half of the time the last nibble: the last nibble of an extension key when the node
+				// before the target is an extension node
+				i := rs.intn(len(path))
+				if rs.chance(50) {
+					i = len(path) - 1
+				}
+				path[i] ^= byte(1 + rs.intn(15))
 			} else {
 				path = append(path, byte(rs.intn(16)))
 			}
